@@ -56,6 +56,7 @@ V = ['iii', 'iin', 'ini', 'inn', 'nii', 'nin', 'nni', 'nnn']
 # The float->int conversion check (real UB) stays active.
 WAIVE = [r'arithmetic overflow on (signed to unsigned|unsigned to signed) type conversion']
 CADICAL = ['--sat-solver', 'cadical']   # float division vs integer ceil-division: minisat2 needs > 300 s on shape_slice.iii, CaDiCaL ~40 s
+DYN_LOOPS = {r'dynamic_slice': 3}
 SHAPE = 'the sliced view has exactly the shape slice.indices gives (per kept axis)'
 INDEX = 'element k along a kept axis is source element start\' + k*step'
 UNITS = [Unit('shape_slice.%s' % v, 'c05', 'verif_shape_slice_%s' % v, mode='bp', extra=CADICAL, waive=WAIVE, timeout=600, clause=SHAPE) for v in V] + \
@@ -66,5 +67,11 @@ UNITS = [Unit('shape_slice.%s' % v, 'c05', 'verif_shape_slice_%s' % v, mode='bp'
     Unit('shape_slice.ell', 'c05', 'verif_shape_slice_ell', mode='bp', unwind=10, extra=CADICAL, waive=WAIVE,
          clause=SHAPE + '; integers drop their axis; one ellipsis expands to the remaining axes'),
     Unit('slice.ell', 'c05', 'verif_slice_ell', mode='uf', unwind=10, waive=WAIVE, clause=INDEX + '; ellipsis axes map identically'),
+    # run-time slice list (array<int,3> encoding) with ONE entry: every code loop of shape_dynamic_slice / dynamic_slice runs over
+    # len(slices) == 1 (a compile-time constant of nmtools_array<array<int,3>,1>) or is dead (Ellipsis branch of a non-either element type)
+    Unit('shape_dynamic_slice.1', 'c05', 'verif_shape_dynamic_slice_1', mode='bp', extra=CADICAL, waive=WAIVE, timeout=600, unwind_loops=DYN_LOOPS,
+         clause=SHAPE + '; run-time (array<int,3>) and compile-time (tuple) encodings agree (same spec)'),
+    Unit('dynamic_slice.1', 'c05', 'verif_dynamic_slice_1', mode='uf', waive=WAIVE, unwind_loops=DYN_LOOPS,
+         clause=INDEX + '; run-time (array<int,3>) and compile-time (tuple) encodings agree (same spec)'),
 ]
 LEMMAS = [Lemma('slice_in_range', 'c05_slice_in_range.lean', clause='0 <= start\' + k*step < n for every k < Python length (no wrap-around)')]
